@@ -481,6 +481,9 @@ func gen(c *vh.Ctx) {
 	fixtures := classify(mut.LoadFixtures(repo))
 	c.Stat("fixtures", len(fixtures))
 
+	// use-after-parse / self-signature stream (sig.go)
+	genSigStream(c, es)
+
 	// (a) exhaustive short inputs
 	maxLen := 2
 	var buf [3]byte
@@ -704,6 +707,12 @@ func replay(c *vh.Ctx, raw json.RawMessage) {
 	}
 	var in caseInput
 	if json.Unmarshal(raw, &in) != nil || in.Kind == "" {
+		return
+	}
+	if in.Kind == "rsa" {
+		var ri rsaInput
+		json.Unmarshal(raw, &ri)
+		rsaDirect(c, ri)
 		return
 	}
 	b, _ := hex.DecodeString(in.Hex)
